@@ -1128,3 +1128,13 @@ func dynTypeOf(v ssa.Value, fr *Frame) types.Type {
 	}
 	return nil
 }
+
+// timeType returns time.Time.
+func (e *Engine) timeType() types.Type {
+	for _, p := range e.prog.AllPackages() {
+		if p.Pkg.Path() == "time" {
+			return p.Pkg.Scope().Lookup("Time").Type()
+		}
+	}
+	return nil
+}
